@@ -291,7 +291,23 @@ def _summary(p, room):
     return (last, v["daily"], v["hist"])
 
 
+def _same_ms_versions(peers):
+    """a row of which two peers store different versions carrying the SAME modification date: the last-writer-wins
+    rule then picks the greater signature, but a peer that WROTE the second version itself (two writes of one row within
+    one millisecond, e.g. an update that moves the row to another room right after its creation) keeps its own write
+    whatever the signatures are — the other peers keep the greater signature, for ever"""
+    for a in range(len(peers)):
+        for b in range(a + 1, len(peers)):
+            for rid, n in peers[a].nodes.items():
+                m = peers[b].nodes.get(rid)
+                if m is not None and m["mdate"] == n["mdate"] and m["sig"] != n["sig"]:
+                    return rid
+    return None
+
+
 def _classify_divergence(room, peers, rights):
+    if _same_ms_versions(peers) is not None:
+        return "same-millisecond-versions-of-one-row-kept"
     contents = [p.content(room) for p in peers]
     for x in range(len(peers)):
         for y in range(x + 1, len(peers)):
@@ -342,14 +358,16 @@ def _classify_edges(room, peers):
     """a reference held by some peers only, whose source row is the same version everywhere: the reference was
     added concurrently with a later update of the row, and references travel only with fetched rows"""
     es = [set(p.visible_edges(room)) for p in peers]
-    dead = {t["id"] for p in peers for t in p.ntombs}
+    # deletion records are per room: a record of ANOTHER room (the row lived there before it was moved) does not make the
+    # row a deleted row of this room
+    dead = {t["id"] for p in peers for t in p.ntombs if t["room"] == room}
     for e in set().union(*es):
         if all(e in s for s in es): continue
         src = e[0]
         if src in dead or e[1] in dead:
             return "reference-of-deleted-row-differs"
         vers = {p.nodes[src]["sig"] for p in peers if src in p.nodes}
-        if len(vers) == 1 and all(int(e[2]) < p.nodes[src]["mdate"] for p in peers if src in p.nodes):
+        if len(vers) == 1 and all(int(e[2]) <= p.nodes[src]["mdate"] for p in peers if src in p.nodes):
             return "reference-older-than-winning-version-not-propagated"
     return "references-differ-after-quiescence"
 
